@@ -226,3 +226,128 @@ Proof.
       * apply elem_of_list_singleton in H. apply (proj1 (eq_None_not_Some _) HkΔ2). fold k2. rewrite <- H. eauto.
 Qed.
 End StepExt.
+
+(* ------------------------------------------------------------------ the request of a droppable forward (GC)
+   `topo_send` of TopoStep.v excludes the GC request, because the message provides nothing: the
+   provider channel of the droppable forward is left without a provider.  That is harmless exactly
+   when nobody refers to it — which is how `drop` creates it (drop_child_unref below) and what every
+   step keeps (unref_rewrite: a step never adds a reference to an old, unreferenced channel). *)
+Section SendGC.
+Variable D : tenv.
+Lemma topo_send_gc c p pp k m st :
+  Topo c -> LinCfg c -> procs c !! p = Some pp -> pr_provs pp <> [] ->
+  action_of Async D pp = ASend k m ->
+  (m_rule m <> RGC \/ forall j o2, j ∈ cids_of (pr_provs pp) -> obj_in c o2 -> j ∉ refs o2) ->
+  chans c !! k = Some st -> ch_closed st = false -> ch_buf st = None ->
+  Topo (del_proc (put_msg c k st (Some m)) p) /\ LinCfg (del_proc (put_msg c k st (Some m)) p).
+Proof.
+  intros Ht Hl Hp Hne Ha Hgc Hk Hcl Hb.
+  destruct (send_objs D pp k m Hne Ha) as (Hrefs & Hprov & Hprov' & Hlin).
+  set (c' := del_proc (put_msg c k st (Some m)) p).
+  assert (Hobj' : forall o', obj_in c' o' ->
+            match o' with
+            | OProc r rr => r <> p /\ procs c !! r = Some rr
+            | OMsg k' m' => (k' = k /\ m' = m) \/ (k' <> k /\ obj_in c (OMsg k' m'))
+            end).
+  { intros [r rr|k' m']; unfold c', del_proc, put_msg; cbn.
+    - intros H. apply lookup_delete_Some in H as [Hn H]. split; [congruence|done].
+    - intros (st' & H & Hbuf). apply lookup_insert_Some in H as [[<- <-]|[Hne' H]]; [left; cbn in Hbuf; split; congruence|].
+      right. split; [done|]. by exists st'. }
+  split.
+  - apply (topo_rewrite c c' [OProc p pp] [OMsg k m] (fun _ => False)); try done.
+    + intros o Ho. apply elem_of_list_singleton in Ho as ->. exact Hp.
+    + intros [r rr|k' m'] Ho.
+      * destruct (decide (r = p)) as [->|Hn]; [left|right].
+        -- cbn in Ho. rewrite Hp in Ho. injection Ho as <-. by apply elem_of_list_singleton.
+        -- intros H. apply elem_of_list_singleton in H. congruence.
+      * right. intros H. apply elem_of_list_singleton in H. discriminate.
+    + intros o' Ho'. specialize (Hobj' o' Ho'). destruct o' as [r rr|k' m'].
+      * destruct Hobj' as [Hn H]. left. split; [exact H|]. intros Hx. apply elem_of_list_singleton in Hx. congruence.
+      * destruct Hobj' as [[-> ->]|[Hn H]]; [right; by apply elem_of_list_singleton|].
+        left. split; [exact H|]. intros Hx. apply elem_of_list_singleton in Hx. discriminate.
+    + intros [r rr|k' m'] Ho Hx.
+      * cbn in Ho |- *. rewrite lookup_delete_ne; [exact Ho|]. intros <-. apply Hx. apply elem_of_list_singleton.
+        rewrite Hp in Ho. by injection Ho as <-.
+      * destruct Ho as (st' & H & Hbuf). exists st'. cbn. split; [|done]. rewrite lookup_insert_ne; [done|].
+        intros <-. rewrite Hk in H. injection H as <-. congruence.
+    + intros o' Ho'. apply elem_of_list_singleton in Ho' as ->. eexists. cbn. split; [apply lookup_insert|done].
+    + intros o' j Ho' Hj. apply elem_of_list_singleton in Ho' as ->. left. exists (OProc p pp).
+      split; [by apply elem_of_list_singleton|]. cbn. by apply Hprov.
+    + intros o' j Ho' Hj. apply elem_of_list_singleton in Ho' as ->. left. exists (OProc p pp).
+      split; [by apply elem_of_list_singleton|]. cbn. by apply Hrefs.
+    + intros o1 o2 j H1 H2 _ _. apply elem_of_list_singleton in H1, H2. congruence.
+    + intros o1 o2 j H1 H2 _ _. apply elem_of_list_singleton in H1, H2. congruence.
+    + intros o j Ho Hj. apply elem_of_list_singleton in Ho as ->. cbn in Hj. destruct Hgc as [Hgc|Hunref].
+      * left. exists (OMsg k m). split; [by apply elem_of_list_singleton|]. by apply Hprov'.
+      * right. split.
+        -- intros o2 Ho2 Hj2. destruct (Hunref j o2 Hj Ho2 Hj2).
+        -- intros o' Ho' Hj'. apply elem_of_list_singleton in Ho' as ->. apply Hrefs in Hj'.
+           exact (Hunref j (OProc p pp) Hj Hp Hj').
+    + intros k' st' Hk' Hcl'. left. cbn in Hk'. apply lookup_insert_Some in Hk' as [[<- <-]|[Hn Hk']]; [cbn in Hcl'; congruence|].
+      exists st'. done.
+    + intros rk M Hr. exists rk, M. eapply rank_ok_same_dom; [| |exact Hr].
+      * intros k' Hk'. cbn in Hk'. apply lookup_insert_is_Some in Hk' as [<-|[_ H]]; [by eexists|done].
+      * intros o' k1 j Ho' Hk1 Hj. specialize (Hobj' o' Ho'). destruct Hr as [_ Hr]. destruct o' as [r rr|k' m'].
+        -- destruct Hobj' as [_ H]. eapply (Hr (OProc r rr)); eauto.
+        -- destruct Hobj' as [[-> ->]|[_ H]]; [|eapply (Hr (OMsg k' m')); eauto].
+           eapply (Hr (OProc p pp)); [exact Hp|by apply Hprov|by apply Hrefs].
+  - split.
+    + intros r rr Hr. cbn in Hr. apply lookup_delete_Some in Hr as [_ Hr]. exact (lc_procs c Hl r rr Hr).
+    + intros k' st' m' Hk' Hb'. cbn in Hk'. apply lookup_insert_Some in Hk' as [[<- <-]|[_ Hk']].
+      * cbn in Hb'. injection Hb' as <-. apply Hlin. exact (lc_procs c Hl p pp Hp).
+      * exact (lc_msgs c Hl k' st' m' Hk' Hb').
+Qed.
+
+End SendGC.
+
+(* ------------------------------------------------------------------ the provider of the droppable forward made by `drop` is referenced by nobody *)
+Section DropUnref.
+Variable D : tenv.
+Variable F : list fundef.
+Variable teq : sty -> sty -> Prop.
+Hypothesis Hteq : teq_laws D teq.
+
+Theorem drop_child_unref Δ c p n0 cl k0 nx md c' :
+  cfg_typed D F teq Δ c -> ns_ok c ->
+  procs c !! p = Some (Proc [n0] (FDrop cl k0) nx) -> is_np md = false ->
+  step md D F c (Run p) = SStep c' ->
+  (exists cn, procs c' !! (p ++ [(S nx + 1)%nat]) = Some (Proc [cn] (FFwd (mkName (ident cl) true (pol cl) (nty cl) None) cl true) 0) /\
+              chan cn = Some (p ++ [nx])) /\
+  forall o', obj_in c' o' -> p ++ [nx] ∉ refs o'.
+Proof.
+  intros Hc Hns Hp Hnp Hs.
+  destruct (ct_procs D F teq Δ c Hc p _ Hp) as (s & rs & Hne & Hprovs & Hty). cbn [pr_provs pr_body0] in *.
+  inversion Hty as [| | | | | | | | | | | | ? ? ? ? c0 k' T Hcl Hk0| | | | | | |]; subst.
+  destruct Hcl as (Hself & _ & Hch). destruct (chan cl) as [kcl|] eqn:Ecl; [|destruct Hch as [_ (t' & H0 & _)]; by rewrite lookup_empty in H0].
+  cbn [step] in Hs. rewrite Hp in Hs. unfold action_of in Hs. cbn [pr_body0] in Hs. rewrite Hself in Hs.
+  unfold internal, multi in Hs. cbn [pr_provs length] in Hs. cbn in Hs. unfold internal_effect in Hs. cbn [pr_body0] in Hs.
+  rewrite Hnp in Hs. unfold droppable_fwd, fresh_chan in Hs. cbn [pr_next pr_provs pr_body0 eff_step chan set_body] in Hs.
+  injection Hs as <-. unfold set_body. cbn [pr_provs pr_body0 pr_next]. rewrite apply_spawn_effect. cbn [length].
+  destruct (fresh_facts D F teq Δ c p n0 _ nx Hc Hns Hp) as [Hfr Hkp].
+  destruct (Hfr nx (le_n _)) as (HkΔ & Hkc & _ & Hfro).
+  split.
+  - exists (mkName (ident cl) false (pol cl) (nty cl) (Some (p ++ [nx]))). cbn [procs]. split; [|reflexivity]. rewrite lookup_insert_ne by (apply not_eq_sym, child_ne). apply lookup_insert.
+  - intros [r rr|k' m'] Ho'; cbn in Ho'.
+    + apply lookup_insert_Some in Ho' as [[<- <-]|[Hn Ho']].
+      * cbn. intros Hk. destruct (Hfro (OProc p _) Hp) as [_ H]. apply H. cbn. set_solver.
+      * apply lookup_insert_Some in Ho' as [[<- <-]|[Hn' Ho']].
+        -- cbn. unfold name_chans. simpl. rewrite Ecl. intros Hk. apply elem_of_list_singleton in Hk.
+           destruct Hch as (t' & H0 & _). apply (proj1 (eq_None_not_Some _) HkΔ). rewrite Hk. eauto.
+        -- by destruct (Hfro (OProc r rr) Ho').
+    + destruct Ho' as (st' & H & Hbuf). apply lookup_insert_Some in H as [[_ <-]|[_ H]]; [discriminate|].
+      assert (Ho : obj_in c (OMsg k' m')) by (exists st'; done). by destruct (Hfro _ Ho).
+Qed.
+End DropUnref.
+
+(* a rewriting step never adds a reference to an old channel: an unreferenced channel that is not
+   fresh for the step stays unreferenced (the side conditions are those of TopoStep.topo_rewrite) *)
+Lemma unref_rewrite (c c' : config) (X Y : list obj) (fresh : cid -> Prop) j :
+  (forall o', obj_in c' o' -> (obj_in c o' /\ o' ∉ X) \/ o' ∈ Y) ->
+  (forall o' k, o' ∈ Y -> k ∈ refs o' -> (exists o, o ∈ X /\ k ∈ refs o) \/ fresh k) ->
+  (forall o, o ∈ X -> obj_in c o) -> ~ fresh j ->
+  (forall o, obj_in c o -> j ∉ refs o) -> forall o', obj_in c' o' -> j ∉ refs o'.
+Proof.
+  intros Hin' Hrefs HX Hnf Hun o' Ho' Hj. destruct (Hin' o' Ho') as [[Ho _]|Hy].
+  - exact (Hun o' Ho Hj).
+  - destruct (Hrefs o' j Hy Hj) as [(o & Hox & Hjo)|Hf]; [|contradiction]. exact (Hun o (HX o Hox) Hjo).
+Qed.
